@@ -135,6 +135,8 @@ func frameSealedCase(c *Ctx, seed []byte, sc sealedCase, headerRest []byte, pad 
 
 func init() {
 	register("frame", func(c *Ctx) {
+		muteStdout()
+		formatLogs()
 		// ---- re-sealed family (directed, on every run): frames whose header MAC and frame MAC are correct around every shape of
 		//      the inner content — what a remote peer that completed the handshake can send
 		{
@@ -308,7 +310,9 @@ func init() {
 
 	register("disc", func(c *Ctx) {
 		muteStdout()
-		silence() // the live discovery node logs every datagram
+		// the live discovery node logs every datagram: production-like logging — every record is FORMATTED (and thrown away), so
+		// that String()/Error() methods evaluated on what the remote sent run as they do on a deployed node
+		formatLogs()
 		var keys []*ecdsa.PrivateKey
 		for i := 0; i < 4; i++ {
 			k, err := crypto.GenerateKey()
